@@ -34,7 +34,7 @@ for p in props:
 m = {
     "version": 1,
     "setup_cmd": "bash bin/setup.sh",
-    "hooks": {"guard": "verif", "enable": "harnesses, stubs and the vp runtime are injected as go/packages and `go test -overlay` overlays; the only hook in /repo is tsdb/wlog/verif_hook.go (build tag verif: a constructor for a WL over an in-memory segment file), used by the C48 harness via -tags verif",
+    "hooks": {"guard": "verif", "enable": "harnesses, stubs and the vp runtime are injected as go/packages and `go test -overlay` overlays; the only hook in /repo is tsdb/wlog/verif_hook.go (build tag verif: a constructor for a WL over an in-memory segment file), used by the C03 (head appender log) and C48 (agent appender) harnesses via -tags verif",
               "baseline_off_cmd": "bash -c 'cd /repo && go build ./... && go test -vet=off -count=1 -timeout 25m ./...'",
               "source_commits": ["51c014983d"], "add_only": True},
     "engines": [{"name": "gosym", "path": "/verif/engine", "serves_properties": sorted(claimed),
